@@ -471,6 +471,23 @@ def to_term(v, shape):
             mk, empty = fn_terms()
             kw = v.kwargs.get("**")
             return mk(to_term(v.fn, Fn), kw.t if kw is not None else empty)
+        if v.kind == "partial" and set(v.kwargs) <= {"**"}:
+            # partial with positional arguments: an uninterpreted constructor over the argument terms
+            mk, empty = fn_terms()
+            kw = v.kwargs.get("**")
+            ats = []
+            for a in v.args:
+                if isinstance(a, VUnion):
+                    raise TypeError("union argument in a stored partial")
+                if a.tag in ("int", "real", "bool", "str", "opaque"):
+                    ats.append(a.t)
+                elif a.tag == "fn":
+                    ats.append(to_term(a, Fn))
+                else:
+                    raise TypeError("argument %r in a stored partial" % a)
+            f = z3.Function("mk_partial_args_" + "_".join(str(t.sort()) for t in ats),
+                            *([usort("Fn")] + [t.sort() for t in ats] + [usort("Kwargs"), usort("Fn")]))
+            return f(to_term(v.fn, Fn), *(ats + [kw.t if kw is not None else empty]))
     if isinstance(shape, (ObjS, Rec)) and v.tag == "obj":
         return obj_term(v.ref)
     if isinstance(shape, TupleS) and v.tag == "tuple" and len(v.items) == len(shape.items):
